@@ -126,6 +126,13 @@ impl Inst {
         }
         v
     }
+    pub fn snapshot_remaining(&self) -> Option<usize> {
+        match self {
+            Inst::S(o) => o.remaining_blocks(),
+            Inst::C(o) => o.remaining_blocks(),
+            _ => None,
+        }
+    }
     pub fn debug(&self) -> String {
         match self {
             Inst::B(o) => o.debug(),
